@@ -33,6 +33,40 @@ pub struct Violation {
     pub log_hash: u64,
 }
 
+/// A set of 64-bit signatures with a per-process cap: beyond the cap new members are dropped, so
+/// its size is a lower bound of the number of distinct members (the evidence says so).
+#[derive(Serialize, Deserialize, Clone, Debug, Default)]
+#[serde(transparent)]
+pub struct CapSet(pub BTreeSet<u64>);
+
+pub const CAP: usize = 400_000;
+
+impl CapSet {
+    pub fn insert(&mut self, v: u64) -> bool {
+        if self.0.len() >= CAP && !self.0.contains(&v) {
+            return false;
+        }
+        self.0.insert(v)
+    }
+    pub fn len(&self) -> usize {
+        self.0.len()
+    }
+    pub fn is_empty(&self) -> bool {
+        self.0.is_empty()
+    }
+    pub fn iter(&self) -> impl Iterator<Item = &u64> {
+        self.0.iter()
+    }
+    /// union; the parent keeps up to 16 x CAP members
+    pub fn absorb(&mut self, o: CapSet) {
+        for v in o.0 {
+            if self.0.len() < CAP * 16 {
+                self.0.insert(v);
+            }
+        }
+    }
+}
+
 #[derive(Serialize, Deserialize, Clone, Debug, Default)]
 pub struct Stats {
     /// scenarios judged
@@ -44,12 +78,12 @@ pub struct Stats {
     pub faults: BTreeMap<String, u64>,
     /// rare-branch probes
     pub probes: BTreeMap<String, u64>,
-    pub interleavings: BTreeSet<u64>,
-    pub states: BTreeSet<u64>,
+    pub interleavings: CapSet,
+    pub states: CapSet,
     /// signatures of distinct non-trivial cases
-    pub nontrivial: BTreeSet<u64>,
+    pub nontrivial: CapSet,
     /// product cells covered (families that enumerate a finite product)
-    pub cells: BTreeSet<u64>,
+    pub cells: CapSet,
     pub cells_total: u64,
     pub samples: Vec<serde_json::Value>,
     pub components_real: BTreeSet<String>,
@@ -89,10 +123,10 @@ impl Stats {
         for (k, v) in o.probes {
             *self.probes.entry(k).or_insert(0) += v;
         }
-        self.interleavings.extend(o.interleavings);
-        self.states.extend(o.states);
-        self.nontrivial.extend(o.nontrivial);
-        self.cells.extend(o.cells);
+        self.interleavings.absorb(o.interleavings);
+        self.states.absorb(o.states);
+        self.nontrivial.absorb(o.nontrivial);
+        self.cells.absorb(o.cells);
         self.cells_total = self.cells_total.max(o.cells_total);
         for s in o.samples {
             if self.samples.len() < 6 {
